@@ -113,7 +113,15 @@ func verifUints(f reflect.Value) []uint64 {
 // VerifResetGlobals resets package-level state that a process restart resets.
 func VerifResetGlobals() {
 	enableGtpuPathMonitoring = false
+	if verifResetGenerated != nil {
+		verifResetGenerated()
+	}
 }
+
+// verifResetGenerated is set by the file the instrumenter generates: it re-assigns
+// every package-level variable whose initialiser can be evaluated again (what a
+// real restart of the process would do).
+var verifResetGenerated func()
 
 // VerifTEIDAllocated reports whether the TEID generator still marks id as used.
 func (p *PFCPIface) VerifTEIDAllocated(id uint32) bool {
